@@ -26,7 +26,7 @@ ASSUMPTIONS = ['the object interface (Fitter.fit + keep) is the reference for re
                'bit-exact comparison is made only between two executions of the same code path in the same process',
                'a zero-byte output (no eligible source) is not generated: the quantifier excludes it',
                'filter_output may raise on a record with zero fits, but then must raise the same class on every channel']
-PROBES = ['zero_fit_record_reached_consumer', 'ineligible_line_skipped', 'short_line_ended_input', 'lines_after_terminator_ignored',
+PROBES = ['zero_fit_record_reached_consumer', 'ineligible_line_skipped', 'short_line_ended_input',
           'preexisting_output_replaced', 'restart_after_crash', 'restart_after_enospc', 'prompt_n_abort', 'channel_list', 'channel_obj',
           'channel_path', 'nan_result_record', 'crash_inside_metadata', 'no_final_newline', 'prelude_epoch', 'channel_fresh', 'intruder_fit', 'manual_source_edited_in_place', 'manual_same_source_object_written_again', 'same_name_on_two_eligible_lines', 'plot_only_some_sources', 'intruder_read_own_fit_file']
 
@@ -79,8 +79,9 @@ def generate(rng, tier, idx):
             sources[j]['name'] = sources[i]['name']
     nd = [n_data_of(s['valid']) for s in sources]
     n_data_min = rng.randint(0, min(nf + 1, max(nd)))
-    tail = {'final_newline': rng.random() < 0.75, 'terminator': rng.choice([None, None, '', '   ', 'a b']),
-            'after': rng.randint(0, 2)}
+    # blank line(s) at the very end of the catalogue only: what fit() does with a line that is not a source (stop there,
+    # skip it, complain) is not part of the property, so no source line follows one and no malformed line is generated
+    tail = {'final_newline': rng.random() < 0.75, 'terminator': rng.choice([None, None, '', '   ']), 'after': 0}
     sc = {'world': w, 'av_range': [0.0, round(rng.uniform(2, 30), 2)],
           'drange': [1.0, rng.choice([1.0, 1.5, 2.0])],
           'n_data_min': n_data_min, 'sel': pipe.gen_selector(rng, w['n_models']),
